@@ -8,7 +8,7 @@ import json, os, re, socket, subprocess, sys, time
 
 from . import wire
 
-CANON = re.compile(r"[^\"]*_[0-9a-f]+_0x[0-9a-f]+")
+CANON = re.compile(r"(?:[^\"]*_)?[0-9a-f]+_0x[0-9a-f]+")   # "<origin id>_<counter>_<peer address>", no origin part for numeric ids
 TIMEOUT = 8.0
 
 
